@@ -24,11 +24,30 @@ package jsonrpc2
 // invoked: how many registered methods have been run (ghost); lastInvoked: which one
 //@ ghost var invoked int
 
+// methodWF: what MethodsOf establishes for every Method it builds (assumed for the values Register stores): the function
+// takes the receiver, the context when HasCtx, and one input per declared argument type; ErrPos indexes a result
+//@ pure methodWF(m *Method) bool = numin(m.Method.Func) == 1 + ite(m.HasCtx, 1, 0) + len(m.ArgTypes) && m.ErrPos < numout(m.Method.Func) && numout(m.Method.Func) >= 0
+//@      && (m.ErrPos >= 0 ==> outerr(m.Method.Func, m.ErrPos))
+
+// Call: the reflective call is made with exactly the declared number of arguments (anything else panics inside
+// reflect), and results are only indexed where the function has them
 //@ func (*Method).Call
-//@ property C16
-//@ trusted reflection (reflect.Value.Call); cross-checked by the existing TestMethodArgs/TestServer
-//@ defines [counts] invoked == old(invoked) + 1
+//@ property C15 C16
+//@ safety on
+//@ requires m != nil && methodWF(m)
+//@ ensures [wrong-count-is-an-error] {C15 C16} len(args) != len(m.ArgTypes) ==> err != nil && result == nil && invoked == old(invoked)
+//@ ensures [runs-at-most-once] {C16} invoked == old(invoked) || invoked == old(invoked) + 1
 //@ modifies invoked
+
+//@ func (*Method).CallJSON
+//@ property C15 C16
+//@ requires m != nil && methodWF(m)
+//@ ensures [runs-at-most-once] invoked == old(invoked) || invoked == old(invoked) + 1
+//@ modifies invoked
+
+// registryWF: every registered method is well-formed (Register only stores what MethodsOf built)
+//@ pure registryWF(reg map[string]Method) bool = forall name string :: has(reg, name) ==> numin(reg[name].Method.Func) == 1 + ite(reg[name].HasCtx, 1, 0) + len(reg[name].ArgTypes)
+//@      && reg[name].ErrPos < numout(reg[name].Method.Func) && numout(reg[name].Method.Func) >= 0 && (reg[name].ErrPos >= 0 ==> outerr(reg[name].Method.Func, reg[name].ErrPos))
 
 //@ func parsePositionalArguments
 //@ property C15 C16
@@ -43,7 +62,7 @@ package jsonrpc2
 //@ func (*Server).Handle
 //@ property C15 C16
 //@ safety on
-//@ requires req != nil && !held(s.mu) && len(nullResult) > 0 && nullResult != nil
+//@ requires req != nil && !held(s.mu) && len(nullResult) > 0 && nullResult != nil && registryWF(s.registry)
 //@ ensures [well-formed-reply] result != nil && result.ID == req.ID && result.Response != nil && (result.Response.Error != nil || len(result.Response.Result) > 0)
 //@ ensures [misformed]      req.Request == nil ==> result.Response.Error != nil && result.Response.Error.Code == ErrCodeInvalidRequest && invoked == old(invoked)
 //@ ensures [unknown-method] req.Request != nil && !old(has(s.registry, req.Request.Method)) ==>
@@ -152,7 +171,7 @@ package jsonrpc2
 //@ func (*Local).Call
 //@ property C14 C15
 //@ safety on
-//@ requires loc != nil && !held(loc.Server.mu) && len(nullResult) > 0 && nullResult != nil
+//@ requires loc != nil && !held(loc.Server.mu) && len(nullResult) > 0 && nullResult != nil && registryWF(loc.Server.registry)
 //@ callreq Handle [handler-context-carries-this-service] : ival(ctxget(arg0, ctxService)) == loc && typeis(ctxget(arg0, ctxService), *Local)
 
 //@ func (*Remote).Serve
@@ -178,6 +197,7 @@ package jsonrpc2
 //@ ensures [in-order]  err == nil ==> result.msgstart == old(nextOffset(codec))
 //@ ensures [exactly-once] err == nil ==> nextOffset(codec) == old(nextOffset(codec)) + result.msglen
 //@ ensures [no-skipping] err != nil ==> nextOffset(codec) == old(nextOffset(codec)) || old(codec.decoder) == nil
+//@ modifies fieldof(codec.decoder), rpos, dsrc, dstart, dcons, dcount, msgstart, msglen, alloc
 
 // ---- HTTP transport (C17): a body is only ever truncated by the configured MaxContentLength ----
 //@ func (*HTTPService).Call
@@ -186,4 +206,5 @@ package jsonrpc2
 
 //@ func (*HTTPServer).ServeHTTP
 //@ property C17
+//@ requires registryWF(h.Server.registry) && !held(h.Server.mu)
 //@ callreq LimitReader [only-the-configured-limit] : arg1 == h.MaxContentLength && h.MaxContentLength > 0
